@@ -56,6 +56,31 @@ CHECKS = {
             'not modelled: rotations are multiples of 1/2 degree (exact in binary floating point).  '
             'Listeners are passive in the theorem.',
             '§5 C20'),
+    'C01': ('correspondence',
+            'Lean 4 invariant proof over all operation histories of the World model (index/row transposition, fresh automatic ids); tied to world.py by correspondence observing all six queries after every operation',
+            'Theorems in lean/DesperProofs/Props/C01.lean about lean/DesperModel/World.lean (mirrors world.py after the fix commits). Every run rebuilds/audits them and runs model and real World on generated histories (int/str/automatic ids, replacement, diamonds), comparing get/get_component/get_components/has_component/entities/entity_exists for 7 ids x all types after EVERY operation, plus an independent oracle written from the property text.',
+            'Trusted: Lean kernel; reading of the statement; correspondence harness (bounded by generators). Lifecycle callbacks and processors are passive in the World model (re-entrant callbacks: dispatcher model); CPython dict/set/__subclasses__ order semantics are modelled (insertion order, creation order), not verified; default id generator only.',
+            '§5 C01'),
+    'C02': ('correspondence',
+            'Lean 4 theorems over the World model with passive callbacks (registered-iff-attached invariant, postponed callbacks FIFO); tied to world.py/events.py by correspondence; two known findings (D5a, D23) carried with explicit guards',
+            'Theorems in lean/DesperProofs/Props/C02.lean; correspondence over handler/non-handler components with every subset of on_add/on_remove/probe events, dispatch toggles, clear and reuse; oracle = abstract attachment relation + FIFO of postponed callbacks.',
+            'Trusted: Lean kernel; reading of the statement; correspondence harness (bounded by generators). Lifecycle callbacks and processors are passive in the World model (re-entrant callbacks: dispatcher model); CPython dict/set/__subclasses__ order semantics are modelled (insertion order, creation order), not verified; default id generator only.',
+            '§5 C02'),
+    'C05': ('correspondence',
+            'Lean 4 theorems over the World model (two-step deletion, sweep before processors, process total on well-formed histories, no sticky failure); correspondence biased to touching deleted entities before the frame, with scripted raising callbacks',
+            'Theorems in lean/DesperProofs/Props/C05.lean; correspondence with deferred deletion interleaved with remove/immediate delete/re-create on the same id, several frames, raising on_remove/processors.',
+            'Trusted: Lean kernel; reading of the statement; correspondence harness (bounded by generators). Lifecycle callbacks and processors are passive in the World model (re-entrant callbacks: dispatcher model); CPython dict/set/__subclasses__ order semantics are modelled (insertion order, creation order), not verified; default id generator only.',
+            '§5 C05'),
+    'C06': ('correspondence',
+            'Lean 4 proof that the fringe walk visits exactly the reflexive-transitive subclasses (structural recursion on class index), get() lists each once; correspondence on random class DAGs',
+            'Theorems in lean/DesperProofs/Props/C06.lean (walk sound and complete w.r.t. the subclass relation, exact type first, get without duplicates); correspondence on random DAGs accepted by C3 with all query types.',
+            'Trusted: Lean kernel; reading of the statement; correspondence harness (bounded by generators). Lifecycle callbacks and processors are passive in the World model (re-entrant callbacks: dispatcher model); CPython dict/set/__subclasses__ order semantics are modelled (insertion order, creation order), not verified; default id generator only.',
+            '§5 C06'),
+    'C07': ('correspondence',
+            'Lean 4 proofs: bisect_right postcondition, processors list sorted by priority and stable, one per exact type, process calls = sorted list; correspondence on add/remove/process histories with ties, zero and negative priorities',
+            'Theorems in lean/DesperProofs/Props/C07.lean; correspondence with class/explicit priorities incl. ties, 0 and negatives, removal by supertype, handler processors.',
+            'Trusted: Lean kernel; reading of the statement; correspondence harness (bounded by generators). Lifecycle callbacks and processors are passive in the World model (re-entrant callbacks: dispatcher model); CPython dict/set/__subclasses__ order semantics are modelled (insertion order, creation order), not verified; default id generator only.',
+            '§5 C07'),
 }
 
 NOT_YET = 'check not built yet (work in progress; see DESIGN.md §5 for the plan)'
